@@ -186,3 +186,30 @@ CLAIMED['C12'] = dict(
           'integer conversion covering -?[0-9]+.'),
     note='Implied, not executed: equality of the records with and without the extra options.',
     technique='information-flow (non-interference) over abstract paths + regular-language closure check')
+
+CLAIMED['C02'] = dict(
+    category='other',
+    text=('NOT byte equality with an independent serialiser. On the abstract paths of every public writer call: header-sink '
+          'sanitisation of every option value; constant keys in the key grammar; canonical rendering shape (sorted by key, '
+          '", "-joined, "#id:" + single space + ascii options + LF); the id written equals the hierarchy id over all accepted '
+          'call histories (K1); length def-use; BOM-stripped newline routing; indentation = b" " * indent before each line of '
+          'split_lines(encoded content, newline); canonical json.dumps arguments; effective-encoding scopes (K1).'),
+    note='Byte-for-byte equality with a specification-derived serialiser is undecided; each rule is a necessary condition of it.',
+    technique='taint-to-sink (header sink) + structural def-use rules on abstract values of the written bytes + K1 exploration')
+CLAIMED['C05'] = dict(
+    category='other',
+    text=('NOT tree equality. Table agreement of the DOM and streaming layers: typed options map (after the rename table) onto '
+          'keyword parameters of the selected writer method; handler table exhaustive over the 9 ids; dynamic new_/write_ '
+          'dispatch resolves; ids of a constructed tree are legal with the right content/container split; only length is '
+          'dropped on load and only empty content skipped on save; choice sets agree; encoding scopes of reader and writer '
+          'agree over all histories (K1).'),
+    note='Equality of the parsed tree with the original on concrete trees is undecided.',
+    technique='agreement tables extracted from the AST (descriptors, signatures, dispatch) + K1 exploration')
+CLAIMED['C06'] = dict(
+    category='other',
+    text=('NOT byte identity. Pass-through closure: the object model is loaded from abstract records with open option mappings '
+          'and serialised; every ** of such a mapping into a closed streaming-writer signature is reported (4 known '
+          'findings); default agreement: writer defaults rendered into headers must be passed explicitly by the DOM writer '
+          '(1 known finding: preamble indent); options stored verbatim (only length dropped); to_bytes leaves the tree unchanged.'),
+    note='Byte identity on library-produced files and idempotence on foreign files are undecided as such.',
+    technique='open-mapping (key-set) dataflow into call signatures + default-value table comparison + effect analysis')
